@@ -270,6 +270,18 @@ Section Sound.
       + injection Hin as ->. split; [exact Hc0|]. exists l. split; [reflexivity|exact Hl].
   Qed.
 
+  (* wrappers: everything that ran is accepted by the predicate, PROVIDED accepted callables only
+     run accepted callables inside (the guard a host-built functools.partial(unsafe_fn) violates) *)
+  Lemma ran_all_accepted : forall runs_inside t c,
+    (forall w, policy w = true -> forall u, In u (runs_inside w) -> policy u = true) ->
+    gated t = true -> In c (ran runs_inside (fst (ev t))) -> policy c = true.
+  Proof.
+    intros runs_inside t c Hguard Hg Hin. unfold ran in Hin. apply in_flat_map in Hin as [e [He Hc]].
+    destruct e as [c0 v|c0|c0]; try contradiction.
+    destruct (eval_invoke_checked t c0 Hg He) as [Hp _].
+    destruct Hc as [->|Hc]; [exact Hp|exact (Hguard c0 Hp c Hc)].
+  Qed.
+
   (* the gate itself *)
   Lemma gate_refuses : forall c args, policy c = false -> scall (CVCallable c) args = ([EvCheck c false], OSecurityError).
   Proof. intros c args H. unfold sandbox_call. rewrite H. reflexivity. Qed.
